@@ -75,7 +75,7 @@ def check(prog, run):
         seqsig = None
         run.rules.pop("R-order"); run.min_instances.pop("R-order")
     if seqsig:
-        seqsig.order_obligations(prog, run, "R-order", which=("merge", "flatten", "pre"))
+        seqsig.order_obligations(prog, run, "R-order", which=("merge", "flatten", "pre", "reflists"))
 
 
 REDUCERS = ("numpy.median", "numpy.nanmedian", "numpy.max", "numpy.min", "numpy.amax", "numpy.amin", "numpy.var", "numpy.sum", "numpy.prod",
